@@ -130,7 +130,7 @@ impl Property for C12 {
         let mut hooks = truth::llir::TestLanguage::default();
         hooks.language = if timeline { truth::LanguageKey::Timeline } else { truth::LanguageKey::Anm };
         let game = if timeline { truth::Game::Th06 } else { truth::Game::Th10 };
-        let opts = tx::PipeOpts { const_simplify: true, lower: true, debug_info: false };
+        let opts = tx::PipeOpts { const_simplify: true, lower: true, debug_info: false, stop_after_typecheck: false };
         let show = |extra: &str| format!("signature: {}\n{}{}", sig.print(), text, extra);
 
         let (res, diags) = tx::with_truth(|truth| { let r = tx::compile_body_with(truth, &mapfile, game, &hooks, &text, opts).map(|c| tx::to_minstrs(&c.instrs)); (r, tx::diags(truth)) });
